@@ -127,6 +127,53 @@ CLAIMS.update({
             'Not verified: astral\'s float trigonometry.', '6/C18'),
 })
 
+CLAIMS['C01'] = ('run_inv (scheduler invariant for every history / environment), timer armed for the head, nothing due after a '
+    'wake-up or re-enable, never early, early wake-up harmless; FUEL: fuel_mono, step_total, run_total, run_exists_fuel: for '
+    'every history there is a fuel (length + 7) without a NoFuel outcome, so the theorems are unconditional when triggers '
+    'answer in the future', SCHED_NOTE, '6/C01 + 11')
+CLAIMS['C02'] = ('queue = exactly the running jobs once each; a disabled scheduler starts nothing; core_frame / '
+    'exec_only_running: a job only starts for the next-run time it had announced, when that time is reached; '
+    'others_untouched (an operation on j changes another job only by running it when due); quiet_after_cancel / pause, '
+    'finished_never_restarts, failed_creation_never_runs, step_op_once and wake_order: no job twice in one operation - all '
+    'proved', SCHED_NOTE, '6/C02 + 11')
+CLAIMS['C03'] = ('single_job_exact: for every history OAt + any interleaving of clock advances / wake-ups / early wake-ups the '
+    'model equals a 12-line reference loop; keepup_enumerates + at_time_trigger_enumerates / at_tig_trigger_enumerates: while '
+    'the loop keeps up the executions enumerate the trigger occurrence set after creation in order, none skipped, none '
+    'duplicated; next run = next occurrence after the execution instant. PARTIAL: proved for ONE undisturbed job; disturbing '
+    'jobs are covered by the virtual-time runs of the real scheduler with real triggers', SCHED_NOTE + ' ' + P_NOTE, '6/C03 + 11')
+CLAIMS['C05'] = ('interval_earliest, time_earliest (earliest admissible occurrence over ALL local days, tables with spread <= 4 h), '
+    'group_earliest / tig_earliest (time / interval-with-start / groups to any depth with member and group filters), grid '
+    'stability - all proved', P_NOTE, '6/C05 + 11')
+CLAIMS['C06'] = ('candidates_spec; replace follows the 4x4 policy table (proved per row); day_results_order, once_per_day, '
+    'once_per_day_chain: the chain enumerates the union over local days in increasing order without omission or repetition '
+    '(tables with spread <= 4 h)', P_NOTE, '6/C06 + 11')
+CLAIMS['C07'] = ('status_next_agree, finished_terminal, StoreOK for every reachable state (store = exactly the created jobs that '
+    'have not finished, unique keys, duplicate rejected with the state unchanged), callbacks: each registered callback exactly '
+    'once in registration order with the new state visible, finished_once_exact (under "operations address existing jobs") - '
+    'all proved', SCHED_NOTE, '6/C07 + 11')
+CLAIMS['C08'] = ('once_start_exact, once_at_most_once, countdown_start_exact, countdown_next_only_by_reset, no_exec_without_reset, '
+    'paused after its run - proved for typed histories (reset / set_countdown on countdown jobs only); never early and on '
+    'time from C01', SCHED_NOTE + ' The asynchronous executor path is checked by scenario oracles only.', '6/C08 + 11')
+CLAIMS['C09'] = ('queue sorted in every reachable state; wake_order / enable_order: inside one wake-up or re-enable the starts are '
+    'in non-decreasing order of their announced times, no job twice, also across nested run_jobs; lifted to EVERY history by '
+    'reachable_cx_fresh', SCHED_NOTE, '6/C09 + 11')
+CLAIMS['C10'] = ('failures_isolated: for every history, erasing the handler events of failing callables / callbacks gives exactly '
+    'the failure-free run (same outcomes, same final state); handled_exactly_once; invariant and never-early under any failure '
+    'environment; F5_refuted (a trigger raising inside execute makes run_jobs diverge: known finding)',
+    SCHED_NOTE + ' The asynchronous executor path (AsyncExecutor + task managers) is checked by scenario oracles only.', '6/C10 + 11')
+CLAIMS['C13'] = ('offset_exact, earliest / latest clamp = max / min with the policy-selected bound on the occurrence\'s local day, '
+    'unchanged within the bound (hypotheses stated), clamp_same_day, never_beyond_bound, offset_chain_complete, jitter_window '
+    '+ jitter_shift_forward_window - proved', P_NOTE, '6/C13 + 11')
+CLAIMS['C14'] = ('offset_chain_injective (any sign), jitter_nonneg_chain_injective, offset_chain_complete; jitter_negative_refuted '
+    '(F6 witness proved in Coq; reported as KNOWN-FINDING)', P_NOTE, '6/C14 + 11')
+CLAIMS['C15'] = ('builder_noninterference (every builder call only appends; existing objects unchanged); get_next_pure: for EVERY '
+    'trigger expression the answer is the same from any two good states (caches on their grids, coherent sun cache, fixed '
+    'random source), repeat / interleaved / copy queries give the same answer; first query anchors a start-less interval',
+    CLAIMS['C15'][1], '6/C15 + 11')
+CLAIMS['C16'] = ('loop/call skeleton regenerated from /repo equals the expected one; cost_bound: for EVERY expression the number of '
+    'loop rounds is bounded by a closed form of the generated loop bound (99 999 per nesting level; interval: its fuel); '
+    'interval_terminates; interval_unsat_refuted (F9, known finding)', P_NOTE, '6/C16 + 11')
+
 checks = []
 na = []
 for p in props:
